@@ -236,6 +236,14 @@ func c03Exec(c *engine.Ctx, cs c03Case, _ *engine.ExploreStats) {
 				return
 			}
 		}
+		// the bytes returned by Marshal belong to the caller: later encoder calls must not change them
+		if p, _ := engine.Guard(func() {
+			c03Marshal(c03OtherGeom, cs)
+			c03Marshal(c03OtherGeom, cs)
+		}); p == nil && !bytes.Equal(got, want) {
+			fail("retained-bytes-changed", fmt.Sprintf("the slice returned by Marshal changed after later encoder calls: now %x, was %x", got, want))
+			return
+		}
 		c.Count("bytes_compared", 1)
 		if g.NumOrdinates() > 0 {
 			c.DistinctStr(mustJSON(cs))
@@ -255,6 +263,10 @@ func c03Exec(c *engine.Ctx, cs c03Case, _ *engine.ExploreStats) {
 		engine.ReplayChoices(cs.Choices, func(m *engine.MC) { writerBody(c, cs, t, want, m) })
 	}
 }
+
+// c03OtherGeom is the second geometry of the two-call histories (encode g, keep the result,
+// encode this, look at the kept result again).
+var c03OtherGeom = geom.NewLineStringFlat(geom.XY, []float64{-1.5, 2.5, 1e300, -0.0, 77, 88, 99, 111})
 
 func c03Key(cs c03Case) string {
 	return fmt.Sprintf("%s/%s/%s/%s", cs.Mode, fmtName(cs), cs.G.Kind, cs.G.Layout)
@@ -454,6 +466,20 @@ func c03SQL(c *engine.Ctx, cs c03Case, fail func(what, desc string)) {
 				fail("value", fmt.Sprintf("Value() err=%v got %x want %x", err, vb, wantV))
 				return
 			}
+			// the driver.Value handed to database/sql is kept by the caller until the statement is
+			// sent: a later Value() call (a second geometry argument) must not change it
+			if p, _ := engine.Guard(func() {
+				if cs.Ext {
+					(&ewkb.LineString{LineString: c03OtherGeom}).Value()
+					(&ewkb.LineString{LineString: c03OtherGeom}).Value()
+				} else {
+					(&wkb.LineString{LineString: c03OtherGeom}).Value()
+					(&wkb.LineString{LineString: c03OtherGeom}).Value()
+				}
+			}); p == nil && !bytes.Equal(vb, wantV) {
+				fail("value-retained-changed", fmt.Sprintf("the []byte returned by Value() changed after a later Value() call on another geometry: now %x, was %x", vb, wantV))
+				return
+			}
 			c.Count("sql_roundtrips", 1)
 		} else {
 			if err == nil {
@@ -534,6 +560,32 @@ func c03Run(c *engine.Ctx) {
 				k++
 			})
 			swept = append(swept, h)
+		}
+	}
+	// (2b) every NaN pattern of a point: each ordinate independently from {canonical quiet NaN,
+	// NaN with payload, negative quiet NaN, an ordinary value}, for a stand-alone point, a
+	// multipoint member, and a point inside a (nested) collection - only the pattern "every
+	// ordinate is the canonical NaN" is the empty point
+	nanMenu := []float64{ref.SpecialFloats[0], ref.SpecialFloats[1], ref.SpecialFloats[3], 1.5}
+	for _, l := range ref.Layouts4 {
+		n := l.Stride()
+		total := 1
+		for i := 0; i < n; i++ {
+			total *= len(nanMenu)
+		}
+		for code := 0; code < total; code++ {
+			pt := ref.NewPoint(l, true, ref.Counter())
+			k, cc := 0, code
+			pt.Ordinates(func(p *ref.F) {
+				*p = ref.F(nanMenu[cc%len(nanMenu)])
+				cc /= len(nanMenu)
+				k++
+			})
+			mp := ref.NewMultiPoint(l, []int{1, 1, 1}, ref.CounterFrom(20))
+			copy(mp.C1[1], pt.C0)
+			swept = append(swept, pt, mp,
+				ref.NewCollection(geom.NoLayout, ref.NewPoint(l, true, ref.CounterFrom(40)), pt.Clone()),
+				ref.NewCollection(geom.NoLayout, ref.NewCollection(geom.NoLayout, pt.Clone(), ref.NewLine(ref.LineString, l, 2, ref.CounterFrom(50)))))
 		}
 	}
 	c.Note("special_float_geometries", len(swept))
